@@ -728,8 +728,8 @@ func main() {
 			off = int(o.Seed % uint64(step))
 		}
 		for v := off; v < g.variants; v += step {
-			if g.name == "model" && v%nModelShapes == 15 && v/nModelShapes == 2 {
-				continue // the n = 24 diamond: run once, below, as a witness
+			if g.name == "model" && (v%nModelShapes == 15 || v%nModelShapes == 8) && v/nModelShapes == 2 {
+				continue // the n = 24 diamond and the n = 1500 chain: run once, below, as witnesses
 			}
 			rn.run(caseDesc{G: g.name, S: r.Uint64(), V: v})
 		}
@@ -738,8 +738,11 @@ func main() {
 	for _, v := range []int{6, 9, 10} { // "-1|", "-5|", "-9223372036854775808|" with no page size
 		rn.run(caseDesc{G: "tok_read", S: 1, V: v, W: true})
 	}
-	// the model_validation_exponential witness: e_i: e_{i+1} or e_{i+1} or e_{i+1} from parent, 24 levels
+	// the model_validation_hascycle_cost witness: e_i: e_{i+1} or e_{i+1} or e_{i+1} from parent, 24 levels
 	rn.run(caseDesc{G: "model", S: 1, V: 2*nModelShapes + 15, W: true})
+	if o.Tier == "thorough" { // the cubic variant: a plain chain of 1500 computed usersets
+		rn.run(caseDesc{G: "model", S: 1, V: 2*nModelShapes + 8, W: true})
+	}
 	// random part
 	total := 0
 	for _, g := range generators {
